@@ -9,6 +9,8 @@ import Operon.Gen.QuorumTables
     payload SHAPES - so that the classification table can be reproduced row by row by `toVote`.
   * `Answer` / `FaultPoint` / `proteinToVote` / `collectLoop`: the collection loop of `run_vote` as written, with every
     point of the per-voter step at which an answer can fail (`Lemmas/C06Tab.lean`: it is `collect` / `afterVote`).
+  * `Ledger`: `_total_votes` / `_quorums_reached` / `_quorums_failed` / `_vote_history` (capped at 1000) as `run_vote`
+    updates them, `get_vote_history(limit)`.
   * `cfgOfCode`: table configuration codes ↦ `Cfg` (7 / 8 = what `EmergencyQuorum`'s constructor passes on).
   * `outcomeCode`: one digit per vote (1 reached & PERMIT, 2 not reached & BLOCK, 4 not reached & ABSTAIN,
     8 ZeroDivisionError, 9 anything else - never produced by the model, see `Lemmas/C06Tab.lean`).
@@ -110,6 +112,41 @@ def collectLoop : List Member → List Answer → List Vote × List Member
 /-- the electorate the protocol abstracts a list of answers to -/
 def answerVoters (c : List Member) (as : List Answer) : List Voter :=
   List.zipWith (fun m a => voterOfMember m (answerBehaviour a)) c as
+
+/-! ### statistics and history kept by `run_vote` -/
+
+/-- the statistics and the history `run_vote` keeps on the object: `_total_votes`, `_quorums_reached`,
+    `_quorums_failed`, `_vote_history` -/
+structure Ledger where
+  totalVotes : Nat := 0
+  reached : Nat := 0
+  failed : Nat := 0
+  history : List Result := []
+
+/-- `_vote_history` keeps the newest 1000 results -/
+def historyCap : Nat := 1000
+
+/-- `xs[-n:]` for `n ≥ 1` -/
+def lastN {α : Type} (n : Nat) (xs : List α) : List α := xs.drop (xs.length - n)
+
+/-- "Record statistics" and the reached / failed counters of `run_vote`, for one result: `_total_votes += len(votes)`,
+    `_vote_history.append(result)`, `if len(_vote_history) > 1000: _vote_history = _vote_history[-1000:]`, then
+    `_quorums_reached += 1` or `_quorums_failed += 1` -/
+def Ledger.record (l : Ledger) (r : Result) : Ledger :=
+  { totalVotes := l.totalVotes + r.votes.length
+    reached := if r.reached then l.reached + 1 else l.reached
+    failed := if r.reached then l.failed else l.failed + 1
+    history := if (l.history ++ [r]).length > historyCap then lastN historyCap (l.history ++ [r]) else l.history ++ [r] }
+
+/-- the ledger after a sequence of votes -/
+def Ledger.recordAll (l : Ledger) (rs : List Result) : Ledger := rs.foldl Ledger.record l
+
+/-- `get_vote_history(limit)` = `self._vote_history[-limit:]` (`limit ≥ 1`) -/
+def Ledger.recent (l : Ledger) (limit : Nat) : List Result := lastN limit l.history
+
+def sumN : List Nat → Nat
+  | [] => 0
+  | x :: xs => x + sumN xs
 
 /-- payload shape codes of the generator (quorum_tables.PAYLOADS) -/
 def payloadOfCode (code : Nat) (c : Rat) : Payload :=
